@@ -497,6 +497,46 @@ func runC18(c *Ctx) {
 				}
 			}
 		})
+		// root references again, this time decoded into a document object that was
+		// already calculated once with its regime derived from the supplier (a reused
+		// value, a service keeping one object per customer): the references of the
+		// second document decide, not what the object held before
+		if (j.v.kind == "regime" || j.v.kind == "addon" || j.v.kind == "tag" || j.v.kind == "addon+tag") && p == nil {
+			if first, perr := jmut.Parse(j.v.doc); perr == nil {
+				first.Del("$regime")
+				first.Del("$addons")
+				first.Del("$tags")
+				var out2 []byte
+				var err2 error
+				p2, _ := Safely(func() {
+					env, e := gx.EnvelopDoc(first.Bytes())
+					if e != nil {
+						err2 = fmt.Errorf("first document: %w", e)
+						return
+					}
+					// onto the same payload value (schema.Object itself always allocates a fresh one)
+					if e := json.Unmarshal(j.v.doc, env.Extract()); e != nil {
+						err2 = e
+						return
+					}
+					if err2 = env.Calculate(); err2 == nil {
+						if err2 = env.Validate(); err2 == nil {
+							out2, err2 = json.Marshal(env.Document)
+						}
+					}
+				})
+				if p2 == nil && (err2 == nil || !strings.HasPrefix(err2.Error(), "first document")) {
+					c.R.Count("reused_object_decodes:"+j.v.kind, 1)
+					if err2 == nil {
+						if n2, e := jmut.Parse(out2); e == nil {
+							if kind, where, det := w.resolve(n2); kind != "" {
+								c.R.Fail(fmt.Sprintf("unresolved:reused-object:%s:%s", kind, where), fmt.Sprintf("%s with %s, decoded into an object that held the same document without root references: validates, but %s", j.it.Rel, j.v.desc, det), map[string]any{"file": j.it.Rel, "variant": j.v.desc, "document": json.RawMessage(j.v.doc)})
+							}
+						}
+					}
+				}
+			}
+		}
 		id := ev.Hash(j.it.Rel, j.v.desc)
 		if p != nil {
 			c.R.Count("panics", 1)
